@@ -116,7 +116,7 @@ def judge_impl(cases, obs):
             if u.startswith("c") and ev[0] in ("c", "e"):
                 ended_children.add(u)
         if n_children != len(ended_children):
-            continue
+            continue          # (an open window / group recorder is a subscription that has not ended - also when the operator that made it was torn down)
         m = re.search(r"live_before (-?\d+) (-?\d+) live_after (-?\d+) (-?\d+) base (-?\d+) (-?\d+)", ob["extra"])
         if not m:
             continue
